@@ -208,7 +208,7 @@ def write_evidence(pid, tier, seed, level, agg, rule, assumptions, wall, nviol, 
 def run_check(pid, tier, seed):
     spec = checks.CHECKS[pid]
     t0 = time.time()
-    variants = sorted({st["variant"] for st in spec["stages"](tier)} | {"vh"})
+    variants = sorted({st["variant"] for st in spec["stages"](tier) if st["variant"] in VARIANTS} | {"vh"})
     if not build(variants):
         log("ERROR property=%s build failed" % pid)
         return 2
